@@ -106,7 +106,7 @@ def run(F, rep, tier):
                         "decQuadFromString reads plain decimal text exactly (up to 34 digits)"]
     plain_text_rule(F, rep)
     carrier_rule(F, rep)
-    lexical_forms_rule(F, rep)
+    lexical_forms_rule(F, rep, tier)
     whole_text_rule(F, rep)
     # premise (C02): every conversion between text and number works on a private, pristine copy of the default context - a conversion must not depend on an earlier one
     from props import c02
@@ -390,7 +390,7 @@ def closure_capture_labels(F, tt, n):
 
 
 # ====================================================================================================== R07.4
-def lexical_forms_rule(F, rep):
+def lexical_forms_rule(F, rep, tier="quick"):
     """every lexical form of a plain number with at most 34 significant digits reaches the decimal reader unchanged: the conversion functions are folded on representative
     texts (literal pieces; the abstract string engine computes on the text, nothing of the analysed code runs) and must answer with the number read from exactly that text"""
     rid = rep.rule("R07.4", "every lexical form of a number with at most 34 significant digits (signs, leading / trailing zeros, fraction-only forms) is handed unchanged to the decimal reader")
@@ -436,8 +436,8 @@ def lexical_forms_rule(F, rep):
     # ---- literals: (integer digits, fraction digits) of the lexer's numeric token
     bn = [n for n in F.hir if n.startswith("dmntk_feel_evaluator::builders::") and n.endswith("::build_numeric")]
     fams = []
-    for sig in (1, 33, 34):
-        for z in (0, 1, 35, 40):
+    for sig in (range(1, 35) if tier == "thorough" else (1, 33, 34)):
+        for z in ((0, 1, 2, 33, 34, 35, 40, 100) if tier == "thorough" else (0, 1, 35, 40)):
             d = "1" * sig
             fams += [(d + "0" * z, "0"), ("0", "0" * z + d), ("0" * z + d, "0"), ("0", d + "0" * z)]
     fams = sorted(set(fams))
@@ -460,7 +460,8 @@ def lexical_forms_rule(F, rep):
         elif und:
             rep.undecided(rid, key, "%d of %d representative literals do not fold" % (und, len(fams)))
         else:
-            rep.ok(rid, key, "%d representative literals (1 / 33 / 34 significant digits with 0 / 1 / 35 / 40 leading or trailing zeros) reach the decimal reader unchanged" % len(fams))
+            rep.ok(rid, key, "%d representative literals (%s significant digits with %s leading or trailing zeros) reach the decimal reader unchanged" % (
+                len(fams), "1..34" if tier == "thorough" else "1 / 33 / 34", "0 / 1 / 2 / 33 / 34 / 35 / 40 / 100" if tier == "thorough" else "0 / 1 / 35 / 40"))
     if not bn:
         rep.missing_anchor(rid, "dmntk_feel_evaluator::builders::build_numeric")
     # ---- typed input text
